@@ -1,5 +1,5 @@
 SPECIFICATION Spec
-CONSTANT Which = "linecomp"
+CONSTANT Which = "main"
 CONSTANT Tier = "thorough"
 INVARIANT FindOKHolds
 CHECK_DEADLOCK FALSE
